@@ -584,6 +584,58 @@ def matrix(ctx, jinja2):
             judge_auto(res, {"filter": "replace", "argument": repr(num)}, "")
             res = mx.apply("C24", "indent", Markup("a\nb"), (num,), ("width",))
             mx.apply("C24", "urlize", "go www.x.org", (None, False, num, num), ("trim_url_limit", "nofollow", "target", "rel"))
+        # NON-str keys of xmlattr (tuple, bytes, frozenset, enum member, objects with __str__ / __html__, numbers):
+        # whatever the filter does with them (the unchanged tree rejects them with TypeError from the key
+        # check), it must not emit an attribute name that contains a space, '/', '>' or '='
+        import enum
+        import re as _re
+
+        class Key(enum.Enum):
+            A = "x onclick=alert(1)"
+
+            def __str__(self):
+                return self.value
+
+        class StrKey:
+            def __init__(self, t):
+                self.t = t
+
+            def __str__(self):
+                return self.t
+
+            def __repr__(self):
+                return f"StrKey({self.t!r})"
+
+            def __hash__(self):
+                return hash(self.t)
+
+            def __eq__(self, o):
+                return isinstance(o, StrKey) and o.t == self.t
+
+        class HtmlKey(StrKey):
+            def __html__(self):
+                return self.t
+        attr_item = _re.compile(r'(?:^| )([^\s"=<>/]+)="[^"]*"')
+        odd_keys = [("a b", 1), ("a", "b c"), b"a b", b"x>y", frozenset(["a b"]), Key.A, StrKey("x y=1"), StrKey("ok"), HtmlKey("a/b"),
+                    HtmlKey("on>x"), 1, 2.5, True, None, ("k",), HostileInt(3)]
+        for k in odd_keys:
+            for other in ({}, {"id": "i"}):
+                d = dict(other)
+                d[k] = "v"
+                res = mx.apply("C24", "xmlattr", d, (), ("autospace",), fresh_value=lambda d=d: dict(d))
+                for way, text in res.items():
+                    if text.startswith("ERR"):
+                        continue
+                    body = text.split(":", 1)[1] if text.startswith("Markup:") else text
+                    try:
+                        out = eval(body)            # canon() wrote a str repr
+                    except Exception:  # noqa: BLE001
+                        out = body
+                    rest = attr_item.sub("", out)
+                    if rest.strip():
+                        ctx.reject({"filter": "xmlattr", "key": repr(k), "key_type": type(k).__name__, "way": way},
+                                   f"a key that is not a str was written as an attribute name with a space, '/', '>' or '=': {out[:80]!r}", None)
+                        break
         urls = ["see http://a.example/x?y=1&z=<2> and www.x.org, mail foo@example.com or tel:+1-555\r\nftp://h/p", "<b>www.evil.com</b> \u2028tel:12"]
         for t in urls:
             for K in (str, StrSub):
